@@ -196,6 +196,9 @@ class CaseTag(Tag):
         stream.expect_tag("endcase")
         end_block_tag = stream.current()
         assert isinstance(end_block_tag, TagToken)
+        # Also without any `when` or `else` block, text after the tag is trimmed
+        # according to `endcase`, not `case`.
+        stream.trim_carry = end_block_tag.wc[-1]
 
         return self.node_class(
             token,
